@@ -79,7 +79,8 @@ OptOp(syn) == IF Canon(syn) \in {"posix-extended", "emacs"} THEN <<63>> ELSE <<B
 LBrace(syn) == IF Canon(syn) = "posix-extended" THEN <<123>> ELSE <<BS, 123>>
 RBrace(syn) == IF Canon(syn) = "posix-extended" THEN <<125>> ELSE <<BS, 125>>
 
-SetChars(cs) == SortSeq(SetToSeq(cs), <)
+\* the members in ascending order, a '-' last (so that it cannot be read as a range operator)
+SetChars(cs) == SortSeq(SetToSeq(cs \ {45}), <) \o (IF 45 \in cs THEN <<45>> ELSE <<>>)
 \* operands of postfix operators and of concatenation are parenthesised when they are not atoms
 IsAtom(e) == e.t \in {"c", "any", "set", "grp"}
 
